@@ -21,7 +21,7 @@ CONVERT = [
         'takeValidityCivil', 'takeValidity', 'takePublicKey', 'extension', 'decodeTbs', 'certBody', 'takeCert', 'decodeCert', 'toFacts']),
     ('Rpki/Model/CmsDer.lean', 'CmsDer', ['takeDigestAlg', 'takeCmsSigAlg', 'skipU8', 'signerInfo', 'signedData', 'decodeSigObj', 'decodeTyped']),
     ('Rpki/Model/CrlDer.lean', 'CrlDer', ['crlExtension']),
-    ('Rpki/Model/SigMsgDer.lean', 'SigMsgDer', ['idExtension', 'decodeTbsId', 'idCertBody', 'decodeIdCert', 'msgCrlExtension', 'takeOptMsgEntry',
+    ('Rpki/Model/SigMsgDer.lean', 'SigMsgDer', ['idExtension', 'idExtsOf', 'decodeTbsId', 'idCertBody', 'decodeIdCert', 'msgCrlExtension', 'takeOptMsgEntry',
         'takeMsgRevoked', 'msgRevokedSerials', 'decodeTbsMsgCrl', 'msgCrlBody', 'msgSignerInfo', 'msgEncap', 'msgCertPart', 'msgCrlPart',
         'msgSignerPart', 'msgHead', 'msgSignedData', 'decodeSigMsg']),
 ]
@@ -307,3 +307,105 @@ def emit_lemmas(groups, imports, target):
 emit_lemmas(LEMMAS, ['import Rpki.Gen.BerModel', 'import Rpki.Proofs.SkipLemmas', 'import Rpki.Proofs.CmsDerLemmas', 'import Rpki.Proofs.CrlDerLemmas'],
             'Rpki/Gen/BerLemmas.lean')
 emit_lemmas(LEMMAS2, ['import Rpki.Proofs.BerSub', 'import Rpki.Proofs.CertDerLemmas', 'import Rpki.Proofs.CmsDerLemmas'], 'Rpki/Gen/BerLemmas2.lean')
+
+# ---- "the relaxed decoders only admit more" (Gen/BerMonoGen.lean): for every definition with an Option result,
+# (foo args).isSome -> fooM true args = foo args, proved by splitting the DER side and rewriting the BER side with the
+# equalities already shown; loops and the hand-written BER definitions have hand proofs in the dictionary below
+MONO_SKIP = {'lastPrintable', 'lastRouterString', 'inspectAttr', 'inspectName', 'inspectRpkiName', 'inspectRouterName', 'toFacts',
+             'foldCons', 'foldPrim'}
+MONO_LEAF = ['Rpki.readTlv_monoEq', 'Rpki.takeOptCons_monoEq', 'Rpki.takeOptPrim_monoEq', 'Rpki.takePrim_monoEq', 'Rpki.takeCons_monoEq',
+             'Rpki.takeOptConsIM_monoEq', 'Rpki.takeOptBool_monoEq', 'Rpki.skipOne_monoEq', 'Rpki.skipAll_monoEq', 'Rpki.bitStringTake_monoEq']
+MONO_EXTRA = {
+    'nameRdn': ['Rpki.foldCons_monoEq Rpki.Der.tagSeq Rpki.CertDer.nameAttr (Rpki.CertDer.nameAttrM true) (fun _ c h => Rpki.CertDer.nameAttr_monoEq c h)'],
+    'takeName': ['Rpki.foldCons_monoEq Rpki.Der.tagSet Rpki.CertDer.nameRdn (Rpki.CertDer.nameRdnM true) (fun _ c h => Rpki.CertDer.nameRdn_monoEq c h)'],
+    'decodeTbs': ['Rpki.foldCons_monoEq Rpki.Der.tagSeq Rpki.CertDer.extension (Rpki.CertDer.extensionM true) (fun s c h => Rpki.CertDer.extension_monoEq s c h)'],
+    'idExtsOf': ['Rpki.foldCons_monoEq Rpki.Der.tagSeq Rpki.SigMsgDer.idExtension (Rpki.SigMsgDer.idExtensionM true) (fun s c h => Rpki.SigMsgDer.idExtension_monoEq s c h)'],
+    'decodeTbsMsgCrl': ['Rpki.foldCons_monoEq Rpki.Der.tagSeq Rpki.SigMsgDer.msgCrlExtension (Rpki.SigMsgDer.msgCrlExtensionM true) (fun s c h => Rpki.SigMsgDer.msgCrlExtension_monoEq s c h)'],
+    'takeMsgRevoked': ['Rpki.capturePass_monoEq Rpki.SigMsgDer.takeOptMsgEntry (Rpki.SigMsgDer.takeOptMsgEntryM true) (fun _ => true) (fun b h => Rpki.SigMsgDer.takeOptMsgEntry_monoEq b h)'],
+    'msgRevokedSerials': ['Rpki.iteratePass_monoEq Rpki.SigMsgDer.takeOptMsgEntry (Rpki.SigMsgDer.takeOptMsgEntryM true) (fun b h => Rpki.SigMsgDer.takeOptMsgEntry_monoEq b h)'],
+    'takeSetOfOne': [], 'foldPrim': [],
+}
+MONO_PROOF = {
+'parseAttr': """theorem Rpki.SigObj.parseAttr_monoEq (strict : Bool) (p : Rpki.SigObj.Parsed) (body : Rpki.Der.Bytes)
+    (h : (Rpki.SigObj.parseAttr strict p body).isSome) :
+    Rpki.SigObj.parseAttrM true strict p body false = Rpki.SigObj.parseAttr strict p body := by
+  unfold Rpki.SigObj.parseAttr at h ⊢
+  unfold Rpki.SigObj.parseAttrM
+  repeat' (split at h <;> try dsimp only at h)
+  all_goals first
+    | (simp at h; done)
+    | (simp_all [%(L)s]; done)""",
+'parseLoop': """theorem Rpki.SigObj.parseLoop_monoEq (strict : Bool) : ∀ (fuel : Nat) (b : Rpki.Der.Bytes) (p : Rpki.SigObj.Parsed),
+    (Rpki.SigObj.parseLoop strict fuel b p).isSome → Rpki.SigObj.parseLoopM true strict fuel b p = Rpki.SigObj.parseLoop strict fuel b p := by
+  intro fuel
+  induction fuel with
+  | zero => intro b p _; rfl
+  | succ n ih =>
+    intro b p h
+    simp only [Rpki.SigObj.parseLoop] at h ⊢
+    simp only [Rpki.SigObj.parseLoopM]
+    cases hp : Rpki.Der.takeOptCons Rpki.Der.tagSeq b with
+    | bad => simp [hp] at h
+    | absent => rw [Rpki.takeOptConsIM_monoEq _ _ (by simp [hp]), hp]
+    | ok body rest =>
+      rw [Rpki.takeOptConsIM_monoEq _ _ (by simp [hp]), hp]
+      simp only [hp] at h ⊢
+      cases ha : Rpki.SigObj.parseAttr strict p body with
+      | none => simp [ha] at h
+      | some p' =>
+        rw [Rpki.SigObj.parseAttr_monoEq strict p body (by simp [ha]), ha]
+        simp only [ha] at h ⊢
+        exact ih rest p' h""",
+'takeOptMsgEntry': """theorem Rpki.SigMsgDer.takeOptMsgEntry_monoEq (b : Rpki.Der.Bytes) (h : Rpki.SigMsgDer.takeOptMsgEntry b ≠ .bad) :
+    Rpki.SigMsgDer.takeOptMsgEntryM true b = Rpki.SigMsgDer.takeOptMsgEntry b := by
+  unfold Rpki.SigMsgDer.takeOptMsgEntry at h ⊢
+  unfold Rpki.SigMsgDer.takeOptMsgEntryM
+  repeat' split at h
+  all_goals first
+    | (simp at h; done)
+    | (simp_all [%(L)s]; done)""",
+}
+BINDER = re.compile(r"\(([\w\s]+?) : ([^()]+)\)")
+mono = ['/-', '  GENERATED by tools/gen_ber_model.py - do not edit.',
+        '  Whatever a DER decoder of the model accepts, its BER counterpart accepts with the same result.', '-/',
+        'import Rpki.Gen.BerModel', 'import Rpki.Proofs.BerMono', '', 'set_option maxRecDepth 4000', 'set_option maxHeartbeats 1000000', '']
+mlemmas = list(MONO_LEAF)
+mcount = 0
+for path, ns, wanted in CONVERT:
+    text = open(os.path.join(ROOT, path)).read()
+    found = {}
+    for b in blocks(text):
+        m = re.match(r'def (\w+)', b)
+        if m and m.group(1) in wanted: found[m.group(1)] = b.rstrip()
+    for w in wanted:
+        if w in MONO_SKIP: continue
+        q = 'Rpki.%s.%s' % (ns, w)
+        L = ', '.join(mlemmas + MONO_EXTRA.get(w, []))
+        if w in MONO_PROOF:
+            mono.append(MONO_PROOF[w] % {'L': L} if '%(L)s' in MONO_PROOF[w] else MONO_PROOF[w])
+        else:
+            header = found[w][:found[w].index(':=')]
+            header = header[header.index(w) + len(w):]
+            # binders come first, then `: result type`
+            pos, binders = 0, []
+            while True:
+                m2 = re.match(r"\s*\(([\w\s]+?) : ([^()]+)\)", header[pos:])
+                if not m2: break
+                binders.append((m2.group(1), m2.group(2))); pos += m2.end()
+            args = ' '.join(' '.join(n.split()) for n, _ in binders)
+            args = ' '.join('()' if a == '_' else a for a in args.split())
+            bind = ' '.join('(%s : %s)' % (' '.join(n.split()), t.strip()) for n, t in binders if n.strip() != '_')
+            rtype = header[pos:].strip()
+            assert rtype.startswith(':'), (w, header)
+            rtype = rtype[1:].strip()
+            if rtype.startswith('Option'):
+                hyp = '(h : (%s %s).isSome)' % (q, args)
+            elif rtype.startswith('Take'):
+                hyp = '(h : %s %s ≠ .bad)' % (q, args)
+            else:
+                raise SystemExit('no monotonicity statement for the result type of ' + w + ': ' + rtype)
+            mono.append('open Rpki.Der Rpki.CertDer Rpki.CmsDer Rpki.SigObj Rpki.SigMsgDer Rpki.CrlDer in\ntheorem %s_monoEq %s %s :\n    %sM true %s = %s %s := by\n  unfold %s at h ⊢\n  unfold %sM\n  repeat\' (split at h <;> try dsimp only at h)\n  all_goals first\n    | (simp at h; done)\n    | (simp_all [%s]; done)\n    | ((repeat\' (split at * <;> try dsimp only at *)) <;> first | (simp at h; done) | (simp_all [%s]; done) | (subst_vars; simp_all [%s]; done))' % (q, bind, hyp, q, args, q, args, q, q, L, L, L))
+        mono.append('')
+        mlemmas.append(q + '_monoEq'); mcount += 1
+open(os.path.join(ROOT, 'Rpki/Gen/BerMonoGen.lean'), 'w').write('\n'.join(mono))
+print('BerMonoGen.lean: %d theorems' % mcount)
